@@ -248,3 +248,44 @@ package unmarshal
 //@   loop 4:
 //@     invariant i >= 0 && rangeindex >= -1 && len(keys) == len(vals)
 //@     modifies elems(keys), elems(vals)
+
+// ---------------------------------------------------------------- the span row builder (parserDoer.onSpan)
+
+//@ spec fn rectSpans(d *model.TempoSamples) bool = len(d.MTraceId) == len(d.MSpanId) && len(d.MSpanId) == len(d.MTimestampNs) && len(d.MTimestampNs) == len(d.MDurationNs) && len(d.MDurationNs) == len(d.MParentId) && len(d.MParentId) == len(d.MName) && len(d.MName) == len(d.MServiceName) && len(d.MServiceName) == len(d.MPayloadType) && len(d.MPayloadType) == len(d.MPayload)
+//@ spec fn rectTags(d *model.TempoTag) bool = len(d.MTraceId) == len(d.MSpanId) && len(d.MSpanId) == len(d.MTimestampNs) && len(d.MTimestampNs) == len(d.MDurationNs) && len(d.MDurationNs) == len(d.MDate) && len(d.MDate) == len(d.MKey) && len(d.MKey) == len(d.MVal)
+//@ spec fn idsSized(d *model.TempoSamples) bool = forall i int :: 0 <= i && i < len(d.MTraceId) ==> len(d.MTraceId[i]) == 16 && len(d.MSpanId[i]) == 8
+//@ spec fn tagIdsSized(d *model.TempoTag) bool = forall i int :: 0 <= i && i < len(d.MTraceId) ==> len(d.MTraceId[i]) == 16 && len(d.MSpanId[i]) == 8
+
+//@ func (*parserDoer).resetSpans [C02,C06]
+//@   modifies p.spans, p.attrs
+//@   ensures fresh(p.spans) && fresh(p.attrs) && rectSpans(p.spans) && rectTags(p.attrs) && len(p.spans.MTraceId) == 0 && len(p.attrs.MTraceId) == 0
+//@   ensures p.spans.Size == 0 && p.attrs.Size == 0
+
+// One accepted span = exactly one trace row with its ids, times, names and
+// payload, plus one tag row per attribute carrying the same ids and times;
+// both request objects stay rectangular and every stored id keeps its
+// FixedString size. (When the 1 MiB chunk limit is crossed the chunk is sent
+// and fresh, empty objects take its place.)
+//@ func (*parserDoer).onSpan [C02,C05,C06]
+//@   requires len(traceId) == 16 && len(spanId) == 8 && len(key) == len(val)
+//@   requires rectSpans(p.spans) && rectTags(p.attrs) && idsSized(p.spans) && tagIdsSized(p.attrs) && p.spans != nil && p.attrs != nil
+//@   modifies p.spans, p.attrs, fields(p.spans), fields(p.attrs)
+//@   ensures result == nil
+//@   ensures rectangular: rectSpans(p.spans) && rectTags(p.attrs)
+//@   ensures ids-sized: idsSized(p.spans) && tagIdsSized(p.attrs)
+//@   check one-trace-row: p.spans == old(p.spans) ==> len(p.spans.MTraceId) == old(len(p.spans.MTraceId)) + 1 &&
+//@         p.spans.MTraceId[old(len(p.spans.MTraceId))] == traceId && p.spans.MSpanId[old(len(p.spans.MTraceId))] == spanId &&
+//@         p.spans.MTimestampNs[old(len(p.spans.MTraceId))] == timestampNs && p.spans.MDurationNs[old(len(p.spans.MTraceId))] == durationNs &&
+//@         p.spans.MName[old(len(p.spans.MTraceId))] == name && p.spans.MServiceName[old(len(p.spans.MTraceId))] == serviceName &&
+//@         p.spans.MParentId[old(len(p.spans.MTraceId))] == parentId && p.spans.MPayload[old(len(p.spans.MTraceId))] == payload &&
+//@         p.spans.MPayloadType[old(len(p.spans.MTraceId))] == p.payloadType
+//@   check tag-rows: p.attrs == old(p.attrs) ==> len(p.attrs.MKey) == old(len(p.attrs.MKey)) + len(key) &&
+//@         (forall k int :: 0 <= k && k < len(key) ==> p.attrs.MKey[old(len(p.attrs.MKey)) + k] == key[k] && p.attrs.MVal[old(len(p.attrs.MKey)) + k] == val[k] &&
+//@              p.attrs.MTraceId[old(len(p.attrs.MKey)) + k] == traceId && p.attrs.MSpanId[old(len(p.attrs.MKey)) + k] == spanId &&
+//@              p.attrs.MTimestampNs[old(len(p.attrs.MKey)) + k] == timestampNs && p.attrs.MDurationNs[old(len(p.attrs.MKey)) + k] == durationNs)
+//@   loop 1:
+//@     invariant rectTags(p.attrs) && tagIdsSized(p.attrs) && len(p.attrs.MKey) == old(len(p.attrs.MKey)) + rangeindex + 1 && rangeindex + 1 <= len(key)
+//@     invariant forall k int :: 0 <= k && k <= rangeindex && k < len(key) ==> p.attrs.MKey[old(len(p.attrs.MKey)) + k] == key[k] && p.attrs.MVal[old(len(p.attrs.MKey)) + k] == val[k] &&
+//@              p.attrs.MTraceId[old(len(p.attrs.MKey)) + k] == traceId && p.attrs.MSpanId[old(len(p.attrs.MKey)) + k] == spanId &&
+//@              p.attrs.MTimestampNs[old(len(p.attrs.MKey)) + k] == timestampNs && p.attrs.MDurationNs[old(len(p.attrs.MKey)) + k] == durationNs
+//@     modifies fields(p.attrs)
